@@ -719,3 +719,28 @@ __wrap_rename(const char *a, const char *b)
     strncpy(f->name, b, sizeof f->name - 1);
     return 0;
 }
+
+/* flat view of a (possibly huge, sparse) file: holes cost no memory (MAP_NORESERVE, untouched pages stay unmapped) */
+#include <sys/mman.h>
+#include <sys/syscall.h>
+#include <unistd.h>
+/* raw syscalls: the sanitizer's mmap interceptor would clear 1/8 of the size in shadow memory for every call */
+uint8_t *
+vfs_map_flat(const vfile *f, long *size)
+{
+    *size      = f->size;
+    size_t len = ((size_t)f->size + VFS_PAGE) & ~(size_t)(VFS_PAGE - 1);
+    uint8_t *m = (uint8_t *)syscall(SYS_mmap, NULL, len, PROT_READ | PROT_WRITE, MAP_PRIVATE | MAP_ANONYMOUS | MAP_NORESERVE, -1, 0);
+    if (m == MAP_FAILED)
+        return NULL;
+    for (size_t pg = 0; pg < f->npages && (long)(pg * VFS_PAGE) < f->size; pg++)
+        if (f->pages[pg])
+            memcpy(m + pg * VFS_PAGE, f->pages[pg], VFS_PAGE);
+    return m;
+}
+void
+vfs_unmap_flat(const vfile *f, uint8_t *m)
+{
+    size_t len = ((size_t)f->size + VFS_PAGE) & ~(size_t)(VFS_PAGE - 1);
+    syscall(SYS_munmap, m, len);
+}
